@@ -1,6 +1,7 @@
 import Lean.Data.Json
 import Just.Model.Run
 import Just.Model.Signals
+import Just.Model.Args
 open Lean
 
 namespace Just.Run
@@ -19,3 +20,18 @@ deriving instance FromJson, ToJson for Sig
 deriving instance FromJson, ToJson for Cmd
 deriving instance FromJson, ToJson for Step
 end Just.Signals
+
+namespace Just.Args
+deriving instance FromJson, ToJson for PKind
+deriving instance FromJson, ToJson for Piece
+deriving instance FromJson, ToJson for Param
+deriving instance FromJson, ToJson for Sig
+deriving instance ToJson for Err
+
+partial def modFromJson (j : Json) : Except String Mod := do
+  let recipes : List (String × Sig) ← fromJson? (← j.getObjVal? "recipes")
+  let modsJ : List (String × Json) ← fromJson? (← j.getObjVal? "modules")
+  let mods ← modsJ.mapM (fun (n, mj) => do return (n, ← modFromJson mj))
+  let dflt : Option Sig ← fromJson? (← j.getObjVal? "default")
+  return Mod.mk recipes mods dflt
+end Just.Args
